@@ -94,6 +94,10 @@ def run(chk):
         ops.append(['draw', rng.choice(['default', 'params', 'dropout', 'noise', 'other'])])
       elif r < 0.75 and depth == 0:
         ops.append(['split', (rng.sample([s[0] for s in seeds], rng.randint(1, len(seeds))) if seeds and rng.random() < 0.5 else None), rng.randint(1, 3)])
+        if rng.random() < 0.35:
+          # split_rngs(splits=1, squeeze=True): the form nnx.RNN uses for broadcast streams; the stream stays scalar
+          ops[-1][2] = 1
+          ops[-1].append(True)
         depth = 1
       elif r < 0.9 and depth == 1:
         ops.append(['restore'])
@@ -200,7 +204,7 @@ Definition chk (b : bool) : bool := b.
         cop = '(RDraw %s)' % cN(SC.get(op[1], 9))
       elif op[0] == 'split':
         only = [s[0] for s in c['seeds']] if op[1] is None else op[1]
-        cop = '(RSplit %s %s)' % (clist([cN(SC[x]) for x in only]), cnat(op[2]))
+        cop = ('(RSplitSq %s)' % clist([cN(SC[x]) for x in only])) if (len(op) > 3 and op[3]) else '(RSplit %s %s)' % (clist([cN(SC[x]) for x in only]), cnat(op[2]))
       elif op[0] == 'restore':
         cop = 'RRestore'
       else:
@@ -218,18 +222,35 @@ Fixpoint replay (s : rstate) (rows : list (rop * xp)) : bool :=
   | (o, e) :: rest =>
       match rstep s o, e with
       | None, XRaised => replay s rest
-      | Some s', XOk => replay (mkR (r_streams s') []) rest
-      | Some s', XKeys ks => list_beq (list_beq kterm_beq) (r_out s') [ks] && replay (mkR (r_streams s') []) rest
+      | Some s', XOk => replay (mkR (r_streams s') [] (r_sq s')) rest
+      | Some s', XKeys ks => list_beq (list_beq kterm_beq) (r_out s') [ks] && replay (mkR (r_streams s') [] (r_sq s')) rest
       | _, _ => false
       end
   end.
-Definition chk (c : streams * list (rop * xp)) : bool := replay (mkR (fst c) []) (snd c).
+Definition chk (c : streams * list (rop * xp)) : bool := replay (mkR (fst c) [] []) (snd c).
 '''
   bad = common.coq_mismatches('c09_nnx', nhdr, [x[2] for x in ncoq], 'chk', shard=300)
   for i in bad[:8]:
     chk.violation('correspondence', 'Model/Rng.v and flax.nnx.Rngs disagree on a history of draws / split_rngs / restore_rngs / reseed; C09_nnx_* no longer transfer',
                   {'case': ncoq[i][0], 'observed': [{k: v for k, v in r.items() if k != 'raw'} for r in ncoq[i][1]['ok']]})
   chk.cov['traces_validated_against_impl'] += len(ncoq)
+  # Linen under nn.jit (a jitted method of a setup-style module, and a reused jitted class called several times per forward pass): the same program with the same seeds
+  # hands out the same keys on every apply -- the apply that traces and the cache hits -- and never one key twice
+  jm = [{'depth': rng.choice([1, 2]), 'inside': rng.randint(1, 2), 'own': rng.random() < 0.5, 'seq': [rng.choice(['plain', 'jit']) for _ in range(rng.randint(2, 3))] + ['jit', 'plain'],
+         'applies': 3, 'seed': rng.randint(0, 99)} for _ in range(10 if thorough else 3)]
+  jm += [{'kind': 'class', 'depth': rng.randint(1, 2), 'inside': rng.randint(1, 2), 'own': rng.random() < 0.5, 'seq': [], 'applies': 3, 'seed': rng.randint(0, 99)}
+         for _ in range(10 if thorough else 3)]
+  jr = common.run_impl('impl_c05.py', {'jit_methods': jm}, timeout=1500)['jit_methods']
+  for c, r in zip(jm, jr):
+    chk.count({'linen_jit_keys': c}, True)
+    if 'err' in r:
+      chk.violation('oracle', 'a module drawing keys under nn.jit could not be applied: %s' % r['err'], {'case': c, 'tb': r.get('tb')})
+      continue
+    runs = r['ok']['jit']
+    if any(run != runs[0] for run in runs):
+      chk.violation('oracle', 'the same Linen program with the same seeds handed out other keys on a later apply (nn.jit cache hit vs the apply that traced)', {'case': c, 'observed': runs})
+    elif len({tuple(k) for k in runs[0]}) != len(runs[0]):
+      chk.violation('oracle', 'one key was handed out twice within one apply under nn.jit', {'case': c, 'observed': runs[0]})
   pr = common.run_impl('impl_c09_probe.py', {})
   if pr['F8']['collides']:
     what = "with flax_fix_rng_separator, suffixes ('x', 0x610001) and ('x', 'a', 1) are hashed to the same key (an int count whose bytes contain 0x00)"
